@@ -19,6 +19,12 @@ out = bytes.fromhex(s.get('stdout', ''))
 err = bytes.fromhex(s.get('stderr', ''))
 order = s.get('order', 'out-first')
 if order == 'out-first':
+    if s.get('pause') and out.count(b'\n') >= 2:
+        # the output arrives in two pieces with a pause in between
+        cut = out.index(b'\n', len(out) // 2 - 1) + 1 if b'\n' in out[len(out) // 2 - 1:-1] else out.index(b'\n') + 1
+        os.write(1, out[:cut])
+        time.sleep(s['pause'])
+        out = out[cut:]
     os.write(1, out) if out else None
     os.write(2, err) if err else None
 else:
